@@ -405,14 +405,14 @@ pub fn c16_list_to_map_n3() {
 
 // @verif prop=C16 tier=quick fl=f1 role=convert/list-to-matrix t=1200 mem=12
 #[cfg_attr(kani, kani::proof)]
-#[cfg_attr(kani, kani::unwind(5))]
+#[cfg_attr(kani, kani::unwind(8))]
 pub fn c16_list_to_matrix_n3() {
     convert::<AdjacencyList, AdjacencyMatrix, 3>();
 }
 
 // @verif prop=C16 tier=quick fl=f1 role=convert/list-to-edge-list t=1200 mem=12
 #[cfg_attr(kani, kani::proof)]
-#[cfg_attr(kani, kani::unwind(5))]
+#[cfg_attr(kani, kani::unwind(8))]
 pub fn c16_list_to_edge_list_n3() {
     convert::<AdjacencyList, EdgeList, 3>();
 }
@@ -440,7 +440,7 @@ pub fn c16_map_to_edge_list_n3() {
 
 // @verif prop=C16 tier=quick fl=f1 role=convert/matrix-to-list t=1200 mem=12
 #[cfg_attr(kani, kani::proof)]
-#[cfg_attr(kani, kani::unwind(5))]
+#[cfg_attr(kani, kani::unwind(8))]
 pub fn c16_matrix_to_list_n3() {
     convert::<AdjacencyMatrix, AdjacencyList, 3>();
 }
@@ -454,14 +454,14 @@ pub fn c16_matrix_to_map_n3() {
 
 // @verif prop=C16 tier=quick fl=f1 role=convert/matrix-to-edge-list t=1200 mem=12
 #[cfg_attr(kani, kani::proof)]
-#[cfg_attr(kani, kani::unwind(5))]
+#[cfg_attr(kani, kani::unwind(8))]
 pub fn c16_matrix_to_edge_list_n3() {
     convert::<AdjacencyMatrix, EdgeList, 3>();
 }
 
 // @verif prop=C16 tier=quick fl=f1 role=convert/edge-list-to-list t=1200 mem=12
 #[cfg_attr(kani, kani::proof)]
-#[cfg_attr(kani, kani::unwind(5))]
+#[cfg_attr(kani, kani::unwind(8))]
 pub fn c16_edge_list_to_list_n3() {
     convert::<EdgeList, AdjacencyList, 3>();
 }
@@ -475,7 +475,7 @@ pub fn c16_edge_list_to_map_n3() {
 
 // @verif prop=C16 tier=quick fl=f1 role=convert/edge-list-to-matrix t=1200 mem=12
 #[cfg_attr(kani, kani::proof)]
-#[cfg_attr(kani, kani::unwind(5))]
+#[cfg_attr(kani, kani::unwind(8))]
 pub fn c16_edge_list_to_matrix_n3() {
     convert::<EdgeList, AdjacencyMatrix, 3>();
 }
@@ -510,7 +510,7 @@ pub fn c16_edge_list_to_weighted_usize_n3() {
 
 // @verif prop=C16 tier=thorough fl=f1 role=round-trip/list-matrix t=1800 mem=16
 #[cfg_attr(kani, kani::proof)]
-#[cfg_attr(kani, kani::unwind(5))]
+#[cfg_attr(kani, kani::unwind(8))]
 pub fn c16_round_trip_list_matrix_n3() {
     round_trip::<AdjacencyList, AdjacencyMatrix, 3>();
 }
@@ -518,7 +518,7 @@ pub fn c16_round_trip_list_matrix_n3() {
 // Valid rows (heads in range, no self-loop) over ids 0..=3: AdjacencyList::from(rows) has exactly those rows.
 // @verif prop=C16 tier=quick fl=f1 role=from-rows/adjacency-list t=1200 mem=12
 #[cfg_attr(kani, kani::proof)]
-#[cfg_attr(kani, kani::unwind(6))]
+#[cfg_attr(kani, kani::unwind(8))]
 pub fn c16_from_rows_list_n3() {
     from_rows::<3, 4>(0, true);
 }
@@ -526,7 +526,7 @@ pub fn c16_from_rows_list_n3() {
 // Rows with a self-loop or an out-of-range head: AdjacencyList::from(rows) must panic.
 // @verif prop=C16 tier=quick fl=f1 role=from-rows-rejects/adjacency-list t=1200 mem=12 expect=panic
 #[cfg_attr(kani, kani::proof)]
-#[cfg_attr(kani, kani::unwind(6))]
+#[cfg_attr(kani, kani::unwind(8))]
 pub fn c16_from_rows_list_rejects_n3() {
     from_rows::<3, 4>(0, false);
 }
@@ -562,7 +562,7 @@ pub fn c16_from_weight_rows_rejects_n3() {
 // AdjacencyMatrix::from(1..=3 arcs with ids < 4, duplicates allowed): order = largest id + 1, exactly those arcs.
 // @verif prop=C16 tier=quick fl=f0 role=from-arcs/matrix t=1200 mem=12
 #[cfg_attr(kani, kani::proof)]
-#[cfg_attr(kani, kani::unwind(6))]
+#[cfg_attr(kani, kani::unwind(8))]
 pub fn c16_from_arcs_matrix_k3() {
     from_arcs::<3, 4>(0);
 }
@@ -570,21 +570,21 @@ pub fn c16_from_arcs_matrix_k3() {
 // EdgeList::from(0..=3 arcs with ids < 4): order = largest id + 1 (1 when empty), exactly those arcs.
 // @verif prop=C16 tier=quick fl=f1 role=from-arcs/edge-list t=1200 mem=12
 #[cfg_attr(kani, kani::proof)]
-#[cfg_attr(kani, kani::unwind(6))]
+#[cfg_attr(kani, kani::unwind(8))]
 pub fn c16_from_arcs_edge_list_k3() {
     from_arcs::<3, 4>(1);
 }
 
 // @verif prop=C16 tier=quick fl=f0 role=from-arcs-rejects/matrix t=1200 mem=12 expect=panic
 #[cfg_attr(kani, kani::proof)]
-#[cfg_attr(kani, kani::unwind(6))]
+#[cfg_attr(kani, kani::unwind(8))]
 pub fn c16_from_arcs_matrix_rejects_k3() {
     from_arcs_rejects::<3, 4>(0);
 }
 
 // @verif prop=C16 tier=quick fl=f1 role=from-arcs-rejects/edge-list t=1200 mem=12 expect=panic
 #[cfg_attr(kani, kani::proof)]
-#[cfg_attr(kani, kani::unwind(6))]
+#[cfg_attr(kani, kani::unwind(8))]
 pub fn c16_from_arcs_edge_list_rejects_k3() {
     from_arcs_rejects::<3, 4>(1);
 }
